@@ -113,6 +113,11 @@ Section Root.
                    a_tree_state := Some ((height + 2 ^ 32 - 1) mod 2 ^ 32, root) |} root
         end
     end.
+  (* ABIHandler.Finalize(finalizedHeight): the diffs of the heights below it are deleted (height 0: nothing happens) *)
+  Definition finalize (a : appdb) (fh : N) : appdb :=
+    if fh =? 0 then a else
+    {| a_state := a_state a; a_tree := a_tree a; a_diffs := filter (fun x => negb (fst x <? fh)) (a_diffs a);
+       a_tree_state := a_tree_state a |}.
 End Root.
 
 Arguments a_state {TR R} _.
@@ -129,6 +134,7 @@ Arguments RNoDiff {TR R}.
 Arguments RMismatch {TR R} _.
 Arguments RPanic {TR R}.
 Arguments RForeignRoot {TR R}.
+Arguments finalize {TR R} _ _.
 Arguments tree_updates _ {K} _ _.
 Arguments commit _ {K} _ {TR R} _ _ _ _ _ _ _ _ _.
 Arguments revert _ {K} _ {TR R} _ _ _ _ _ _ _.
